@@ -22,6 +22,22 @@ KNAME = {0: "Invalid", 1: "VirtualInput", 2: "ExistingInput", 3: "MissingInput",
          10: "SuccessfulCommand", 11: "FailedCommand", 12: "PropagatedFailureCommand", 13: "CancelledCommand",
          14: "SkippedCommand", 17: "SuccessfulCommandWithOutputSignature"}
 
+def robust(fn, *a, **kw):
+    """Other checks may relink the shared binaries under _work while this one runs (exec then fails with EACCES /
+    ETXTBSY, or the binary is briefly absent): wait for the build lock and retry."""
+    for attempt in range(6):
+        try:
+            return fn(*a, **kw)
+        except (OSError, RuntimeError) as e:
+            if attempt == 5:
+                raise
+            time.sleep(1.0 + attempt)
+            try:
+                vlib.llbuild_bin()
+            except vlib.BuildError:
+                pass
+
+
 # ------------------------------------------------------------------------------------------------ (b) tables
 
 PROBE_DESC = """client:
@@ -140,7 +156,7 @@ def run_tables(chk, drv, model):
     shutil.rmtree(P, ignore_errors=True)
     os.makedirs(P)
     open(os.path.join(P, "build.llbuild"), "w").write(PROBE_DESC)
-    rc, out, err = vlib.run_lines(drv, ["probe %s %s" % (hx(P), hx("build.llbuild"))], timeout=300)
+    rc, out, err = robust(vlib.run_lines, drv, ["probe %s %s" % (hx(P), hx("build.llbuild"))], timeout=300)
     if rc != 0 or not out or not out[0].startswith("rfo"):
         chk.violation("probe-failed", "the probe of the real command instances did not complete (driver rc=%s): %s" % (rc, (out[0] if out else "")[:300]),
                       dict(stderr=err[-1500:], description=PROBE_DESC), found_input=False, broken="harness/cpp/bsys_driver.cpp probe")
@@ -449,13 +465,13 @@ def run_build(S, h, mode, drv, llb, skip=()):
     g = Graph(h)
     if mode.startswith("cli"):
         args = [llb, "buildsystem", "build", "--chdir", S] + (["--serial"] if mode == "cli-serial" else ["-j", "4"])
-        rc, out, err = vlib.sh(args, timeout=120)
+        rc, out, err = robust(vlib.sh, args, timeout=120)
         ran = set(re.findall(r"^RUN-(\S+)$", out, re.M))
         logged = set(open(log).read().split()) if os.path.exists(log) else set()
         observable = set(n for n in g.order if g.cmds[n]["tool"] != "phony")
         return dict(ok=(rc == 0), rc=rc, executed=ran | logged, logged=logged, observable=observable, failures=None, status={}, raw=(out[-1500:], err[-800:]))
     _, lanes, cancel = mode.split("-")
-    rc, out, err = vlib.run_lines(drv, ["build %s %s %s %s %d - %s" % (hx(S), hx("build.llbuild"), hx("build.db"), lanes, 1 if cancel == "cancel" else 0, ",".join(skip) or ".")], timeout=120)
+    rc, out, err = robust(vlib.run_lines, drv, ["build %s %s %s %s %d - %s" % (hx(S), hx("build.llbuild"), hx("build.db"), lanes, 1 if cancel == "cancel" else 0, ",".join(skip) or ".")], timeout=120)
     if rc != 0 or not out or not out[0].startswith("ok="):
         return dict(crash=True, rc=rc, raw=(out, err[-1500:]))
     m = re.match(r"ok=(\d) failures=(\d+) errors=(\d+) events=(\S+)", out[0])
@@ -615,7 +631,7 @@ def run_history(h, drv, llb, model_path):
         apply_state(C, h, last, True)
         for s in h["sources"]:     # same source contents and mtimes as the incremental directory
             shutil.copy2(os.path.join(S, s), os.path.join(C, s))
-        rc, out, err = vlib.sh([llb, "buildsystem", "build", "--serial", "--chdir", C], timeout=120)
+        rc, out, err = robust(vlib.sh, [llb, "buildsystem", "build", "--serial", "--chdir", C], timeout=120)
         stats["builds"] += 1
         fa, fb = final_state(S, h), final_state(C, h)
         if rc != 0:
@@ -778,7 +794,7 @@ def run_description_repairs(chk, drv, llb):
             shutil.rmtree(C, ignore_errors=True); os.makedirs(C)
             open(os.path.join(C, "build.llbuild"), "w").write(description(h1))
             apply_state(C, h1, 0, True)
-            rc, out, err = vlib.sh([llb, "buildsystem", "build", "--serial", "--chdir", C], timeout=120)
+            rc, out, err = robust(vlib.sh, [llb, "buildsystem", "build", "--serial", "--chdir", C], timeout=120)
             fa, fb = final_state(S, h1), final_state(C, h1)
             if not r1["ok"] or not must1 <= r1["executed"] or fa != fb:
                 chk.violation("not-rebuilt-after-description-repair", "scenario %s: after the description was repaired the build %s, executed %s (expected at least %s), outputs %s a clean build (mode %s): the recorded node value was treated as up to date"
